@@ -141,15 +141,35 @@ func (w *World) runPath(solver *Solver, fn *ssa.Function, dec []int, wantModel b
 				switch x := r.(type) {
 				case pathEnd:
 					reason = x.reason
-				case violationFound:
-					reason = "VIOLATION"
-					if e.cexModel == nil {
-						e.cexModel = e.modelNow()
+				case violationFound, goPanic:
+					// validate the path condition (a path entered after an 'unknown' feasibility answer may not exist)
+					msg := ""
+					if v, ok := x.(violationFound); ok {
+						msg = v.msg
+					} else {
+						msg = "uncaught Go panic: " + e.render(x.(goPanic).v)
 					}
-					pr.viol = &Violation{Harness: fn.Name(), Msg: x.msg, Model: e.cexModel}
-				case goPanic:
-					reason = "VIOLATION"
-					pr.viol = &Violation{Harness: fn.Name(), Msg: "uncaught Go panic: " + e.render(x.v), Model: e.modelNow()}
+					func() {
+						defer func() {
+							if r2 := recover(); r2 != nil {
+								switch y := r2.(type) {
+								case pathEnd:
+									reason = y.reason
+								case inconclusive:
+									reason = "INCONCLUSIVE: " + y.what
+								default:
+									panic(r2)
+								}
+							}
+						}()
+						if e.cexModel == nil {
+							e.cexModel = e.modelNow()
+						}
+						reason = "VIOLATION"
+						pr.viol = &Violation{Harness: fn.Name(), Msg: msg, Model: e.cexModel}
+					}()
+				case inconclusive:
+					reason = "INCONCLUSIVE: " + x.what
 				case unsupported:
 					reason = "UNSUPPORTED: " + x.what
 				case solverDied:
